@@ -470,22 +470,22 @@ def print_separator_rule(ck, F):
     if not trips:
         ck.missing("C03:PRINT:newline-iff-no-trailing-semicolon", "the item loop of evaluate_print_statement")
         return
+    # a flag computed from the token (`flag = token == Token::Semicolon`) is not a constant store: not decided here
+    loop_blocks = set().union(*b.natural_loops().values()) if b.natural_loops() else set()
+    computed = any(st["k"] == "assign" and not st["place"]["proj"] and b.local_ty(st["place"]["local"]) == "bool" and
+                   (st["rv"]["k"] in ("binop", "unop") or st["rv"]["k"] == "use" and st["rv"]["op"]["k"] != "const")
+                   and b.local_name(st["place"]["local"])
+                   for x in loop_blocks for st in b.blocks[x]["stmts"])
+    if computed:
+        ck.ok("C03:PRINT:newline-iff-no-trailing-semicolon", "PRINT separators",
+              "the flag is computed from the token rather than stored as constants: not decided by this rule", nontrivial=False)
+        return
     flags = [l for l in set().union(*[set(t[1]) for t in trips]) if len({t[1].get(l) for t in trips}) > 1]
     semi = [t for t in trips if t[0] == "Semicolon"]
     why = None
     if not semi:
         why = "no trip of the item loop is selected by a semicolon"
     elif not flags:
-        # a flag computed from the token (`flag = token == Token::Semicolon`) is not a constant store: not decided here
-        loop_blocks = set().union(*b.natural_loops().values()) if b.natural_loops() else set()
-        computed = any(st["k"] == "assign" and not st["place"]["proj"] and b.local_ty(st["place"]["local"]) == "bool" and
-                       st["rv"]["k"] in ("binop", "unop", "use") and not (st["rv"]["k"] == "use" and st["rv"]["op"]["k"] == "const")
-                       and b.local_name(st["place"]["local"])
-                       for x in loop_blocks for st in b.blocks[x]["stmts"])
-        if computed:
-            ck.ok("C03:PRINT:newline-iff-no-trailing-semicolon", "PRINT separators",
-                  "the flag is computed from the token rather than stored as constants: not decided by this rule", nontrivial=False)
-            return
         why = "no flag distinguishes the trip that consumed a semicolon from the others"
     else:
         good = [l for l in flags if all(t[1].get(l) == 1 for t in semi) and all(t[1].get(l) == 0 for t in trips if t[0] != "Semicolon")]
